@@ -21,7 +21,14 @@ RULE = ("a case is an ORDERED PAIR of type descriptions (weight type, input "
         "sample of small types, extreme values only (min, max, +-1 code, "
         "smallest magnitudes, zero).  Part C: Hypothesis-drawn pairs with bits "
         "<= 16 (all value pairs when <= 4096 of them, else extremes) and a "
-        "float operand in ~1/7 of the draws.  Construction route (direct "
+        "float operand in ~1/7 of the draws.  Part A2/D (mode 'seq'): a case "
+        "is a SEQUENCE of type pairs served in order by ONE MultiplierFactory "
+        "instance (families of types that agree in kind/bits/sign/name and "
+        "differ only in max_val_po2 or int_bits, or only in class name/route, "
+        "in ascending, descending and interleaved order, against 7 partner "
+        "types, in either operand role; plus Hypothesis-drawn sequences); "
+        "every result goes through the same product-membership oracle; a "
+        "pair failing only on the shared factory is 'stale_factory_state'.  Construction route (direct "
         "quantizer_impl object vs QuantizerFactory().make_quantizer(qkeras "
         "quantizer)) alternates deterministically.  Non-trivial = the two "
         "operands differ in kind or in signedness; distinct by hash of the "
@@ -43,9 +50,9 @@ _IMPLS = ["FixedPointMultiplier", "Shifter", "Mux", "AndGate", "XorGate", "Adder
           "FloatingPointMultiplier"]
 REQUIRED_LABELS = {
     "quick": ["all", "ext", "hyp", "via:impl*impl", "via:factory*factory",
-              "float", "po2_cap_not_pow2"] + ["impl:" + c for c in _IMPLS],
+              "float", "po2_cap_not_pow2", "seq", "seq_po2_caps", "hyp_seq"] + ["impl:" + c for c in _IMPLS],
     "thorough": ["all", "ext", "hyp", "via:impl*impl", "via:factory*factory",
-                 "float", "po2_cap_not_pow2"] + ["impl:" + c for c in _IMPLS],
+                 "float", "po2_cap_not_pow2", "seq", "seq_po2_caps", "hyp_seq"] + ["impl:" + c for c in _IMPLS],
 }
 
 _T = {
@@ -108,8 +115,9 @@ def _scaled(vals):
   return [int(v * den) for v in vals], den.bit_length() - 1
 
 
-def oracle(case, stats=None):
-  """-> list of (sub_check, signature, detail)."""
+def oracle(case, stats=None, factory=None):
+  """-> list of (sub_check, signature, detail).  `factory`: a shared
+  MultiplierFactory instance (sequence cases); default a fresh one."""
   w, x, mode = case["w"], case["x"], case.get("mode", "ext")
   st = stats if stats is not None else {}
   lw, lx = R.desc_lat(w), R.desc_lat(x)
@@ -123,7 +131,7 @@ def oracle(case, stats=None):
       raise
     return [("build_raises", dict(core.exc_signature(e), **base), repr(e)[:300])]
   try:
-    m = multiplier_factory.MultiplierFactory().make_multiplier(qw, qx)
+    m = (factory or multiplier_factory.MultiplierFactory()).make_multiplier(qw, qx)
     impl = type(m).__name__
     how = m.implemented_as()
     out = m.output
@@ -255,6 +263,53 @@ def run_case(ctx, case, extra=()):
   return fails
 
 
+def _auto_mode(w, x):
+  lw, lx = R.desc_lat(w), R.desc_lat(x)
+  return "all" if (lw.finite and lx.finite and lw.size * lx.size <= 4096) else "ext"
+
+
+def seq_oracle(case, st=None):
+  """One MultiplierFactory instance serves the pairs of case["seq"] in order;
+  every result is judged by the pair oracle.  A pair that fails on the shared
+  factory but not on a fresh one is reported as stale_factory_state."""
+  from qkeras.qtools.quantized_operators import multiplier_factory  # pylint: disable=g-import-not-at-top
+  st = st if st is not None else {}
+  shared = multiplier_factory.MultiplierFactory()
+  fails = []
+  impls = set()
+  nprod = 0
+  for pos, (w, x) in enumerate(case["seq"]):
+    pc = {"w": w, "x": x, "mode": _auto_mode(w, x)}
+    s1 = {}
+    f_shared = oracle(pc, s1, factory=shared)
+    impls.add(s1.get("impl", "none"))
+    nprod += s1.get("nprod", 0)
+    if not f_shared:
+      continue
+    fresh_keys = set(core.fkey(sc, sig) for sc, sig, _ in oracle(pc, {}))
+    for sc, sig, detail in f_shared:
+      if core.fkey(sc, sig) in fresh_keys:
+        fails.append((sc, sig, detail))          # fails on its own as well
+      else:
+        sig2 = dict(sig, was=sc)
+        fails.append(("stale_factory_state", sig2,
+                      "pair #%d of the sequence passes on a fresh MultiplierFactory but fails on the shared one: %s" % (pos, detail)))
+  st["impls"] = impls
+  st["nprod"] = nprod
+  return fails
+
+
+def run_seq(ctx, case, extra=()):
+  st = {}
+  fails = seq_oracle(case, st)
+  labs = list(extra) + ["seq", "seq_len%d" % min(len(case["seq"]), 9)] + ["impl:" + i for i in sorted(st["impls"])]
+  if any(d.get("k") == "po2" for pr in case["seq"] for d in pr):
+    labs.append("seq_po2_caps")
+  ctx.tick(case, labels=labs, nontrivial=len(case["seq"]) >= 2, sample_label="seq")
+  ctx.info["value_pairs"] = ctx.info.get("value_pairs", 0) + st.get("nprod", 0)
+  return fails
+
+
 def run(ctx):
   from hypothesis import strategies as st_  # pylint: disable=g-import-not-at-top
   maxb = 5
@@ -270,6 +325,15 @@ def run(ctx):
       ctx.fail(f[0], f[1], case, f[2])
   ctx.info["exhaustive"] = True
   ctx.info["exhaustive_scope"] = "part A only: all value pairs of all ordered type pairs with <= %d bits" % maxb
+
+  # Part A2: shared-factory sequences (deterministic)
+  seqs = G.pair_sequences(ctx.tier)
+  if ctx.idx == 0:
+    ctx.info["sequences"] = len(seqs)
+  for sq in ctx.shard(seqs):
+    case = {"seq": sq, "mode": "seq"}
+    for f in run_seq(ctx, case):
+      ctx.fail(f[0], f[1], case, f[2])
 
   # Part B: wide types, extremes
   wide = G.wide_lattice(ctx.tier)
@@ -306,8 +370,25 @@ def run(ctx):
   n = (3000 if ctx.quick else 120000) // ctx.n + 1
   core.hyp_run(ctx, case_st(), orc, n, name="c16")
 
+  # Part D: random shared-factory sequences
+  vs = G.variant_strategy(st_)
+
+  @st_.composite
+  def seq_st(draw):
+    ws, xs = draw(vs), draw(vs)
+    k = draw(st_.integers(2, 6))
+    picks = draw(st_.lists(st_.tuples(st_.integers(0, 3), st_.integers(0, 3)), min_size=k, max_size=k))
+    return {"seq": [[ws[i % len(ws)], xs[j % len(xs)]] for i, j in picks], "mode": "seq"}
+
+  n = (400 if ctx.quick else 20000) // ctx.n + 1
+  core.hyp_run(ctx, seq_st(), lambda c: run_seq(ctx, c, extra=("hyp_seq",)), n, name="c16seq")
+
 
 def replay(ctx, case):
+  if "seq" in case:
+    for f in run_seq(ctx, case, extra=("replay",)):
+      ctx.fail(f[0], f[1], case, f[2])
+    return
   c = dict(case)
   if c.get("mode", "auto") == "auto":
     lw, lx = R.desc_lat(c["w"]), R.desc_lat(c["x"])
